@@ -229,6 +229,31 @@ def extend_own(ctx, meths, rule, want=('typeguard', 'validate')):
     if not bulk:
         ctx.error(rule, 'Grid.extend: neither super().extend nor a store into _row found; cannot decide')
         return False
+    # the argument may be a one-shot iterable (a generator, map(...) -- the ZINC reader passes one): the rows that are
+    # checked must be the rows that are stored, so the argument is walked ONCE unless it was made a list first
+    material = any(isinstance(a, ast.Assign) and len(a.targets) == 1 and norm(a.targets[0]) == v
+                   and norm(a.value) in ('list(%s)' % v, 'tuple(%s)' % v) and getattr(a, '_parent', None) is fn
+                   for a in ast.walk(fn))
+    walks = []
+    for n in ast.walk(fn):
+        if isinstance(n, (ast.For, ast.comprehension)) and norm(n.iter) == v:
+            walks.append(n.iter)
+        elif isinstance(n, ast.Call) and any(norm(a) == v for a in n.args) and norm(n.func) not in ('isinstance', 'len', 'id', 'type'):
+            p_ = getattr(n, '_parent', None)
+            if norm(n.func) in ('list', 'tuple') and isinstance(p_, ast.Assign) and norm(p_.targets[0]) == v:
+                continue        # (conditional) materialisation in place: what follows walks the list
+            walks.append(n)
+        elif isinstance(n, ast.AugAssign) and norm(n.value) == v:
+            walks.append(n)
+    walks.sort(key=lambda z: z._seq)
+    if len(walks) >= 2 and not material:
+        ctx.violation(rule, '%s::Grid.extend' % F, 'second traversal of `%s`: %s' % (v, norm(walks[1])[:60]),
+                      'grid.extend(row for row in rows) / grid.extend(map(f, rows)) (the ZINC reader fills nested grids this way): '
+                      'the first traversal (`%s`) exhausts the iterator, the second (`%s`) sees nothing -- rows are stored that '
+                      'were never type-checked or validated against the grid version' % (norm(walks[0])[:50], norm(walks[1])[:50]),
+                      'Grid.extend walks its argument twice without materialising it: with a one-shot iterable the checks and the '
+                      'store see different rows', file=F, line=getattr(walks[1], 'lineno', fn.lineno), engine='E6')
+        return False
     guard = any(isinstance(n, ast.If) and 'isinstance' in norm(n.test) and 'dict' in norm(n.test) and n.body
                 and isinstance(n.body[0], ast.Raise) and norm(n.body[0].exc).startswith('TypeError') for n in ast.walk(fn))
     valid = any(isinstance(n, ast.Call) and norm(n.func) == '%s._detect_or_validate' % s for n in ast.walk(fn)) and \
@@ -693,3 +718,48 @@ def who_may_write(ctx, rule='C15.D4'):
                               engine='E7')
     ctx.ob(rule, 'all %d uses of _row/_index are inside class Grid' % n, True)
     ctx.floor('uses of _row/_index', n, 12)
+
+
+# ------------------------------------------------------------------ explicit index range tests are the list's
+
+def index_guards(ctx, meths, rule='C14.D1'):
+    """A primitive that tests the index itself before touching _row (`if not -len < i < len: raise IndexError`) must
+    accept exactly what a list accepts: -len <= i < len.  Decision table over lengths 0, 1, 3 and the indices around
+    both ends."""
+    from .. import minieval
+    n_tests = 0
+    for name in ('__getitem__', '__setitem__', '__delitem__', 'pop'):
+        fn = meths.get(name)
+        if fn is None or len(fn.args.args) < 2:
+            continue
+        s = _self(fn)
+        ip = fn.args.args[1].arg
+        for node in walk_no_nested(fn):
+            if not (isinstance(node, ast.If) and node.body and isinstance(node.body[0], ast.Raise) and node.body[0].exc is not None
+                    and norm(node.body[0].exc).startswith('IndexError')):
+                continue
+            if not any(isinstance(x, ast.Name) and x.id == ip for x in ast.walk(node.test)):
+                continue
+            n_tests += 1
+            bad = None
+            try:
+                for n in (0, 1, 3):
+                    for i in sorted({-n - 1, -n, -1, 0, n - 1, n}):
+                        raises = bool(minieval.ev(node.test, {ip: i, s: {'_row': tuple(range(n))}}))
+                        if raises != (not (-n <= i < n)):
+                            bad = bad or (n, i, raises)
+            except minieval.Undecided as e:
+                ctx.error(rule, 'Grid.%s: index test `%s` not decidable (%s)' % (name, norm(node.test)[:60], e))
+                continue
+            if bad:
+                n, i, raises = bad
+                ctx.violation(rule, '%s::Grid.%s' % (F, name), norm(node.test),
+                              'a grid with %d row(s): g[%d]%s %s IndexError, a list of %d element(s) %s' % (
+                                  n, i, ' = row' if name == '__setitem__' else '', 'raises' if raises else 'does not raise', n,
+                                  'accepts the index' if raises else 'raises IndexError'),
+                              'the explicit index range test of Grid.%s differs from the list rule -len <= i < len' % name,
+                              file=F, line=node.lineno, engine='E7')
+            else:
+                ctx.ob(rule, 'Grid.%s: the explicit index test `%s` is the list rule' % (name, norm(node.test)[:50]), True,
+                       '%s:%d' % (F, node.lineno))
+    ctx.count('explicit index range tests in Grid primitives', n_tests)
